@@ -384,6 +384,7 @@ def run_case(case):
     # ------------------------------------------------------------ stream sets held by StreamInformation objects
     if simple_ok and r <= 10 ** 6:
         _info_sets(out, specs, r)
+        _copies(out, specs, r)
 
     # ------------------------------------------------------------ StreamSeedUpdater
     exp_seeded = {}
@@ -476,6 +477,35 @@ def run_case(case):
     out.nontrivial = bool(n >= 2 and unlisted and r >= 1)
     out.info = {"r": r, "listed": len(listed), "unlisted": len(unlisted), "beyond": len(beyond)}
     return out
+
+
+def _copies(out, specs, r):
+    """A stream that was already prepared for an earlier replication is handed to a worker (pickled) or copied
+    (deepcopy): the copy is the same stream - same name, same original seed - so an update of the copy for replication
+    r gives what an update of a fresh stream gives."""
+    import copy
+    import pickle
+    from pydsol.core.streams import MersenneTwister
+    nm, og = specs[0][0], specs[0][1]
+    fresh = MersenneTwister(og)
+    exc_f = _call(_simple().update_seed, nm, fresh, r)
+    want = _obs(fresh)
+    for how, copier in (("deepcopy", copy.deepcopy), ("pickle", lambda x: pickle.loads(pickle.dumps(x)))):
+        used = MersenneTwister(og)
+        _call(_simple().update_seed, nm, used, 1)
+        used.next_float()
+        try:
+            c = copier(used)
+        except Exception as e:                                    # noqa: BLE001
+            out.fail("copy-raises:%s:%s" % (how, type(e).__name__), repr(e)[:200])
+            return
+        exc_c = _call(_simple().update_seed, nm, c, r)
+        if exc_c != exc_f or _obs(c) != want:
+            out.fail("history-dependence:copied-stream:" + how,
+                     {"stream": nm, "original_seed": og, "r": r, "copy": _obs(c)[:2], "fresh": want[:2],
+                      "exc": [exc_c, exc_f]})
+            return
+    out.label("copied-streams")
 
 
 def _info_sets(out, specs, r):
